@@ -339,3 +339,105 @@ func c17BitBucket(r *rand.Rand, rep *runReport, cw *caseWriter, id0 int, n int) 
 	}
 	return id0 + n
 }
+
+// E. BitBucket's paged activities listing: the real getPullRequestComments against a fake that serves the activities in
+// pages of 1..5 (start / nextPageStart / isLastPage); the result must be exactly the activities that are pint's own open
+// review comments (COMMENTED + ADDED + OPEN + own author, no resolved BLOCKER, no orphaned NORMAL), in order, whatever
+// the page size.  Oracle only (the listing filter is not in the Coq model).
+type bbActivity struct {
+	Action, CommentAction, State, Author, Severity, Text string
+	Resolved, Orphaned                                  bool
+	ID, Replies                                         int
+	Path                                                string
+	Line                                                int
+}
+
+func c17BitBucketListing(r *rand.Rand, rep *runReport, n int) {
+	for k := 0; k < n; k++ {
+		na := r.Intn(15)
+		acts := make([]bbActivity, na)
+		var want []int
+		for i := range acts {
+			a := bbActivity{Action: "COMMENTED", CommentAction: "ADDED", State: "OPEN", Author: "pint", Severity: pick(r, []string{"NORMAL", "BLOCKER"}),
+				Text: fmt.Sprintf("comment %d", i), ID: 500 + i, Replies: r.Intn(3) / 2, Path: "a.yml", Line: 1 + r.Intn(9)}
+			switch r.Intn(9) {
+			case 0:
+				a.Action = "APPROVED"
+			case 1:
+				a.CommentAction = "EDITED"
+			case 2:
+				a.State = "RESOLVED"
+			case 3:
+				a.Author = "somebody"
+			case 4:
+				a.Resolved = true
+			case 5:
+				a.Orphaned = true
+			}
+			acts[i] = a
+			if a.Action == "COMMENTED" && a.CommentAction == "ADDED" && a.State == "OPEN" && a.Author == "pint" &&
+				!(a.Severity == "BLOCKER" && a.Resolved) && !(a.Severity == "NORMAL" && a.Orphaned) {
+				want = append(want, a.ID)
+			}
+		}
+		per := 1 + r.Intn(5)
+		omitNext := r.Intn(2) == 0 // on the last page: nextPageStart absent, or repeated (= start)
+		pages := 0
+		srv := httptest.NewServer(http.HandlerFunc(func(w http.ResponseWriter, req *http.Request) {
+			if strings.HasSuffix(req.URL.Path, "/whoami") {
+				io.WriteString(w, "pint\n")
+				return
+			}
+			if !strings.HasSuffix(req.URL.Path, "/pull-requests/1/activities") {
+				w.WriteHeader(404)
+				return
+			}
+			pages++
+			start, _ := strconv.Atoi(req.URL.Query().Get("start"))
+			end := start + per
+			if end > len(acts) {
+				end = len(acts)
+			}
+			if start > len(acts) {
+				start = len(acts)
+			}
+			vals := []map[string]any{}
+			for _, a := range acts[start:end] {
+				reps := []any{}
+				for j := 0; j < a.Replies; j++ {
+					reps = append(reps, map[string]any{"id": 900 + j, "text": "reply"})
+				}
+				vals = append(vals, map[string]any{"action": a.Action, "commentAction": a.CommentAction,
+					"commentAnchor": map[string]any{"path": a.Path, "line": a.Line, "lineType": "ADDED", "diffType": "EFFECTIVE", "orphaned": a.Orphaned},
+					"comment": map[string]any{"id": a.ID, "version": 1, "state": a.State, "author": map[string]any{"name": a.Author}, "text": a.Text,
+						"severity": a.Severity, "threadResolved": a.Resolved, "comments": reps}})
+			}
+			out := map[string]any{"values": vals, "start": start, "size": len(vals), "isLastPage": end >= len(acts)}
+			if end < len(acts) {
+				out["nextPageStart"] = end
+			} else if !omitNext {
+				out["nextPageStart"] = start
+			}
+			json.NewEncoder(w).Encode(out)
+		}))
+		got, err := reporter.VerifBBListComments(srv.URL)
+		srv.Close()
+		sc := map[string]any{"activities": acts, "page_size": per, "expected_comment_ids": want}
+		rep.count(fmt.Sprintf("bblist %v %d", acts, per), len(acts) > per)
+		rep.hist("kind=bitbucket-listing")
+		if len(acts) > per {
+			rep.hist("bitbucket-listing:more-than-one-page")
+		}
+		if err != nil {
+			rep.fail(fmt.Sprintf("bblist%d", k), "BitBucket: getPullRequestComments failed against the paged fake API: "+err.Error(), sc)
+			continue
+		}
+		var ids []int
+		for _, c := range got {
+			ids = append(ids, c.ID)
+		}
+		if fmt.Sprint(ids) != fmt.Sprint(want) {
+			rep.fail(fmt.Sprintf("bblist%d", k), fmt.Sprintf("BitBucket: %d activities served in pages of %d: pint sees comments %v, its own open review comments are %v", len(acts), per, ids, want), sc)
+		}
+	}
+}
